@@ -253,6 +253,10 @@ func (o *Operations) Update(
 			}
 		} else {
 			hdr.PAXRecords[records.STFSRecordReplacesContent] = records.STFSRecordReplacesContentFalse
+			if _, ok := hdr.PAXRecords[records.STFSRecordUncompressedSize]; !ok && hdr.Size > 0 {
+				// The record carries no content, so keep the entry's size in its own record (entries of foreign archives have none yet)
+				hdr.PAXRecords[records.STFSRecordUncompressedSize] = strconv.Itoa(int(hdr.Size))
+			}
 			hdr.Size = 0 // Don't try to seek after the record
 
 			if o.onHeader != nil {
